@@ -8,6 +8,7 @@ import AgeModel.Extracted.CallOrder
 import Proofs.GoTieSlicesEq
 import Proofs.GoTieEncrypt
 import Proofs.GoTieWrapLabels
+import Props.C11
 namespace AgeModel
 namespace Tie.C11
 
@@ -52,6 +53,30 @@ theorem wrapWithLabels_tie {ρ : Type} (impl : ρ → Bool)
       if impl r = true then WL r fk
       else (W r fk).map (fun t => (t.1, [], t.2)) :=
   GoTie.wrapWithLabels_tie impl WL W r fk
+
+/-! ### The property, stated about the CODE
+
+`encrypt_tie` composed with `Props.C11.refusal_writes_nothing`: whenever the header cannot be built — no recipients, a
+random source that fails, a recipient that fails to wrap, recipients whose label sets differ — the TRANSLATED
+`age.Encrypt` reports an error and hands the destination back in the state it was given: not a byte was written. -/
+
+theorem code_encrypt_refusal_writes_nothing (P : Prims) {S : AgeModel.Stream.DstSpec} {ρ δ ω : Type}
+    (E : GoTie.EncryptEnv P S ρ δ ω) (d : δ) (rs : List ρ) (tape : Bytes) (e : EncErr)
+    (h : encryptHeader P tape (rs.map E.recOf) = .error e) :
+    ∃ res, Extracted.age_Encrypt E.nilW (GoTie.tapeRead E.eRand) E.W E.mac E.marshalF E.write E.newWriter E.key d rs tape = .ok res ∧
+      GoTie.encErrRel E.eRand e res.2.1 ∧ E.absD res.2.2.1 = E.absD d := by
+  obtain ⟨res, hrun, hres⟩ := encrypt_tie P E d rs tape
+  rw [Props.C11.refusal_writes_nothing P tape (rs.map E.recOf) E.hdrSegs (E.absD d) e h] at hres
+  exact ⟨res, hrun, hres⟩
+
+/-- … in particular for recipients whose labels differ: error site 2 of `Encrypt`, nothing written -/
+theorem code_encrypt_incompatible (P : Prims) {S : AgeModel.Stream.DstSpec} {ρ δ ω : Type}
+    (E : GoTie.EncryptEnv P S ρ δ ω) (d : δ) (rs : List ρ) (tape : Bytes)
+    (h : encryptHeader P tape (rs.map E.recOf) = .error .incompatible) :
+    ∃ res, Extracted.age_Encrypt E.nilW (GoTie.tapeRead E.eRand) E.W E.mac E.marshalF E.write E.newWriter E.key d rs tape = .ok res ∧
+      res.2.1 = some ⟨"age.Encrypt", 2, []⟩ ∧ E.absD res.2.2.1 = E.absD d := by
+  obtain ⟨res, hrun, herr, habs⟩ := code_encrypt_refusal_writes_nothing P E d rs tape .incompatible h
+  exact ⟨res, hrun, herr, habs⟩
 
 end Tie.C11
 end AgeModel
